@@ -65,12 +65,13 @@ func (g *gen) mv(v r.Val) r.Val {
 }
 
 var errorForms = map[string]r.Val{
-	"error":    r.L(sym("error"), r.Str("boom")),
-	"type":     r.L(sym("car"), int64(1)),
-	"divzero":  r.L(sym("/"), int64(1), int64(0)),
-	"unbound":  sym("zz-unbound-variable"),
+	"error":     r.L(sym("error"), r.Str("boom")),
+	"type":      r.L(sym("car"), int64(1)),
+	"divzero":   r.L(sym("/"), int64(1), int64(0)),
+	"unbound":   sym("zz-unbound-variable"),
+	"undefined": r.L(sym("zz-undefined-function"), int64(1)),
 }
-var errorKinds = []string{"error", "type", "divzero", "unbound"}
+var errorKinds = []string{"error", "type", "divzero", "unbound", "undefined"}
 
 // exit draws an exit that is legal at this point (or nil).
 func (g *gen) exit(c ctx) r.Val {
@@ -173,7 +174,17 @@ func (g *gen) form(c ctx, d int) r.Val {
 		if g.pick("cleanup2", 2) == 0 {
 			cleanup = append(cleanup, g.m())
 		}
-		return list("unwind-protect", append([]r.Val{list("progn", g.body(nc, d+1)...)}, cleanup...)...)
+		// the protected form is a progn of statements or, half of the time, one bare statement (an exit or a
+		// nested form directly in the protected position)
+		var protected r.Val
+		if g.pick("bareprotected", 2) == 0 {
+			protected = list("progn", g.body(nc, d+1)...)
+		} else if g.exits < 3 && g.pick("bareexit", 2) == 0 {
+			protected = g.exit(nc)
+		} else {
+			protected = g.form(nc, d+1)
+		}
+		return list("unwind-protect", append([]r.Val{protected}, cleanup...)...)
 	case 7:
 		if g.nmutex >= 3 {
 			return g.m()
@@ -267,10 +278,11 @@ func learnClasses() {
 	classOnce.Do(func() {
 		scope := slip.NewScope()
 		for refClass, form := range map[string]string{
-			"error:boom":       `(error "boom")`,
-			"type-error":       `(car 1)`,
-			"division-by-zero": `(/ 1 0)`,
-			"unbound-variable": `zz-unbound-variable`,
+			"error:boom":         `(error "boom")`,
+			"type-error":         `(car 1)`,
+			"division-by-zero":   `(/ 1 0)`,
+			"unbound-variable":   `zz-unbound-variable`,
+			"undefined-function": `(zz-undefined-function 1)`,
 		} {
 			out := ev.Eval(scope, form)
 			if out.Kind != ev.Condition {
@@ -401,7 +413,7 @@ func run(c Case) *h.Result {
 			}
 		}
 	}
-	exits := kinds["return-from"] || kinds["return"] || kinds["go"] || kinds["error"] || kinds["car"] || kinds["/"] || strings.Contains(c.Prog, "zz-unbound-variable")
+	exits := kinds["return-from"] || kinds["return"] || kinds["go"] || kinds["error"] || kinds["car"] || kinds["/"] || strings.Contains(c.Prog, "zz-un")
 	res.NonTrivial = exits && (hasUP || hasMutex || len(res.Classes) >= 5)
 	return res
 }
